@@ -101,6 +101,11 @@ func genC06(t *rapid.T) c06Case {
 			}
 		}
 	}
+	styleSeed := 0 // included files may be written in another YAML style (flow collections, anchors and aliases)
+	if rapid.IntRange(0, 2).Draw(t, "styled") == 0 {
+		styleSeed = rapid.IntRange(1, 1<<20).Draw(t, "style")
+		cs.Features = append(cs.Features, "yaml-style-varied")
+	}
 	dirs := []string{"", "inc1", "deps/inc2", "inc1/nested"}
 	if rapid.IntRange(0, 2).Draw(t, "sibling-dir") == 0 {
 		// an included project next to the project directory, in a directory whose name starts with its name
@@ -317,7 +322,7 @@ func genC06(t *rapid.T) c06Case {
 			sp := &splitter{t: t, n: 2, used: map[string]int{}}
 			parts := sp.splitModel(gr.doc)
 			over := filepath.Join(gr.dir, "compose.override.yaml")
-			cs.Distributed = append(cs.Distributed, memFile{Name: gr.file, Content: emitYAML(parts[0], nil)}, memFile{Name: over, Content: emitYAML(parts[1], nil)})
+			cs.Distributed = append(cs.Distributed, memFile{Name: gr.file, Content: emitYAMLStyled(parts[0], nil, styleSeed)}, memFile{Name: over, Content: emitYAMLStyled(parts[1], nil, styleSeed)})
 			relOver, _ := filepath.Rel(parentDir, over)
 			if parentDir == "" {
 				relOver = over
@@ -330,7 +335,7 @@ func genC06(t *rapid.T) c06Case {
 			if includes != nil {
 				d["include"] = includes
 			}
-			cs.Distributed = append(cs.Distributed, memFile{Name: gr.file, Content: emitYAML(d, nil)})
+			cs.Distributed = append(cs.Distributed, memFile{Name: gr.file, Content: emitYAMLStyled(d, nil, styleSeed)})
 		}
 		if gr.projDir != "" {
 			long["project_directory"] = gr.projDir
@@ -433,7 +438,7 @@ func c06Check(c *Ctx, cs c06Case) *Failure {
 		if rd.Err == nil {
 			return failf("c06:invalid-include-accepted:"+cs.Negative, "%s loaded without error\n%s", cs.Negative, desc())
 		}
-		if cs.ErrMust != "" && !strings.Contains(rd.Err.Error(), cs.ErrMust) {
+		if cs.ErrMust != "" && !strings.Contains(strings.ToLower(rd.Err.Error()), strings.ToLower(cs.ErrMust)) {
 			return failf("c06:wrong-rejection:"+cs.Negative, "%s is rejected with %q, which does not say %q\n%s", cs.Negative, rd.Err, cs.ErrMust, desc())
 		}
 		return nil
@@ -576,7 +581,7 @@ func genC06Conflict(t *rapid.T) c06Case {
 	empty := bodies[i] == "~" || bodies[j] == "~"
 	switch {
 	case i != j:
-		cs.Negative, cs.MustLoad, cs.ErrMust = "generated-conflict:"+kind+":"+route, false, "conflicts with imported resource"
+		cs.Negative, cs.MustLoad, cs.ErrMust = "generated-conflict:"+kind+":"+route, false, "conflict" // the statement asks for a conflict error, not for a wording
 		if empty {
 			cs.Negative += ":empty-body"
 		}
